@@ -427,6 +427,7 @@ class SimSolver(object):
         self.ctx = ctx
         self.policy = None
         self.last_result = None
+        self.results = []
         self.calls = 0
         self._patched = []
 
@@ -437,8 +438,7 @@ class SimSolver(object):
 
         def wrapped(*a, **kw):
             sim.calls += 1
-            pol = sim.policy
-            sim.policy = None
+            pol = sim.policy          # stays in force until the world clears it (covers retries/restarts)
             if pol is None or pol['kind'] == 'pass':
                 res = real(*a, **kw)
             elif pol['kind'] == 'iter_cap':
@@ -456,10 +456,12 @@ class SimSolver(object):
             elif pol['kind'] == 'raise':
                 sim.ctx.faults['solver_raise'] += 1
                 sim.last_result = 'raised'
+                sim.results.append('raised')
                 raise ValueError('simulated solver failure')
             else:
                 raise HarnessError('unknown solver policy %r' % (pol,))
             sim.last_result = res
+            sim.results.append(res)
             return res
 
         eq.minimize = wrapped
